@@ -604,7 +604,14 @@ mod matching {
         EM: EdgeMatcher<G0, G1>,
     {
         if st.0.is_complete() {
-            return Some(st.0.mapping.clone());
+            // Only possible on entry for an empty `g0`: there is exactly one
+            // (empty) mapping, report it once.
+            return if stack.is_empty() {
+                None
+            } else {
+                stack.clear();
+                Some(st.0.mapping.clone())
+            };
         }
 
         // A "depth first" search of a valid mapping from graph 1 to graph 2
